@@ -18,6 +18,7 @@ ATTRS = {
     'a': 'a={{f1(1)}}', 'b': 'b={{v1.x}}', 'cls1': 'class={{f1(2)}}', 'cls2': 'class={{v2.c}}', 'sty': 'style={{f1(3)}}', 'clk1': 'onClick={{v1.h}}', 'clk2': 'onClick={{f1(4)}}',
     'spI': '{{...f1(5)}}', 'spM': '{{...v3.s}}', 'spO': '{{...{{k: f1(6)}}}}', 'id': 'id="s"', 'triv': 't={{v1}}', 'key': 'key={{f1(7)}}', 'ref': 'ref={{v4.r}}', 'on': 'on={{f1(8)}}',
     'dir': 'v-foo={{f1(9)}}', 'dirA': 'v-foo={{[v1.d, f1(10), ["m"]]}}', 'show': 'v-show={{v2.s}}', 'html': 'v-html={{f1(11)}}', 'model': 'v-model={{v1.m}}', 'modelC': 'v-model={{[v1.m, f1(12)]}}',
+    'typC': 'type={{f1(40) ? "checkbox" : "radio"}}', 'typM': 'type={{v2.t ? "checkbox" : "text"}}', 'typD': 'type={{f1(41)}}', 'typT': 'type={{`chec${{v3.k}}`}}', 'typP': 'type={{v3.q ? "password" : "text"}}',
     'clsA': 'class={{[f1(30), v2.d]}}', 'clkA': 'onClick={{[f1(31), v3.g]}}', 'styA': 'style={{[v4.t, f1(32)]}}',
     'models': 'v-models={{[[v1.m, "ar"], [v2.n, f1(33)]]}}', 'models1': 'v-models={{[[v3.p]]}}',
     'modelCM': 'v-model={{[v1.m, f1(12), ["x"]]}}', 'modelS': 'v-model={{[v2.n, "arg"]}}', 'slots': 'v-slots={{{{s: f1(13)}}}}', 'arrow': 'cb={{() => f1(14)}}', 'obj': 'o={{{{p: f1(15)}}}}',
@@ -432,6 +433,16 @@ def oracle(env):
         else:
             obs.append(Obligation('children of a component are evaluated only when the slot function is invoked, never at vnode creation',
                                   eager.count(t) == 0 and thunk_all.count(t) == 1, {'token': list(t), 'eager': eager.count(t), 'lazy': thunk_all.count(t)}))
+    # (4) nothing else of the user's is evaluated: a piece of an embedded expression (the test of a conditional, the object of a
+    # member access) copied out of it would run a second time, away from its place
+    known = set(exp_eager) | set(side) | set(lazy) | set(everything(acc))
+    def inside(t):
+        return [k for k in known if k != t and k[0] <= t[0] and t[1] <= k[1]]
+    for t in sorted(set(eager + thunk_all)):
+        enc = inside(t) if t not in known else []
+        if enc:
+            obs.append(Obligation('no part of an embedded expression is evaluated on its own, outside that expression', False,
+                                  {'token': list(t), 'part_of': [list(k) for k in enc[:1]], 'eager': eager.count(t), 'lazy': thunk_all.count(t)}))
     return obs
 
 
@@ -461,6 +472,13 @@ def jobs(tier):
         for tail in (['a', 'b', 'cls1'], ['spI', 'a', 'b'], ['clk1', 'cls1', 'clk2'], ['a', 'spI', 'b', 'key']):
             out.append({'host': 'Foo', 'attrs': [d] + tail, 'kids': []})
             out.append({'host': 'Foo', 'attrs': ['sty', d] + tail[:3], 'kids': ['call']})
+    # <input>: the `type` attribute selects the v-model directive - its value stays one evaluation, in its written place
+    for ty in ('typC', 'typM', 'typD', 'typT', 'typP'):
+        for m in ('model', 'modelCM'):
+            out.append({'host': 'input', 'attrs': [ty, m], 'kids': []})
+            out.append({'host': 'input', 'attrs': [m, ty], 'kids': []})
+            out.append({'host': 'input', 'attrs': [ty, 'a', m, 'b'], 'kids': []})
+        out.append({'host': 'input', 'attrs': ['spI', ty, 'model'], 'kids': []})
     for h in HOSTS:
         for k in KIDS:
             out.append({'host': h, 'attrs': ['a'], 'kids': [k]})
